@@ -69,6 +69,28 @@ AllReversed(cst) == MapDecls(cst, "reversed", 0)
 AllRenamed(cst) == MapDecls(cst, "renamed", 0)
 AllSingle(cst, j) == MapDecls(cst, "single", j)
 
+\* ---- C15: removal of one declaration (namespaces are entered, not removed)
+RECURSIVE DeclPaths(_, _)
+DeclPaths(items, prefix) ==
+  FlatSeq([i \in 1..Len(items) |->
+             IF items[i].k = "namespace" THEN DeclPaths(items[i].items, prefix \o <<i>>) ELSE << prefix \o <<i>> >>])
+RECURSIVE RemoveAt(_, _)
+RemoveAt(items, path) ==
+  IF Len(path) = 1 THEN SubSeq(items, 1, path[1] - 1) \o SubSeq(items, path[1] + 1, Len(items))
+  ELSE [items EXCEPT ![path[1]] = [@ EXCEPT !.items = RemoveAt(@, Tail(path))]]
+RECURSIVE DeclAt(_, _)
+DeclAt(items, path) == IF Len(path) = 1 THEN items[path[1]] ELSE DeclAt(items[path[1]].items, Tail(path))
+RECURSIVE NsPathOf(_, _)
+NsPathOf(items, path) == IF Len(path) = 1 THEN <<>> ELSE <<items[path[1]].name>> \o NsPathOf(items[path[1]].items, Tail(path))
+DeclLabel(d) == CASE d.k = "include" -> d.header [] d.k = "fwd" -> d.qn[Len(d.qn)] [] d.k = "typedef" -> d.newname
+                  [] OTHER -> d.name
+Removals(cst) ==
+  LET ps == DeclPaths(cst, <<>>) IN
+  [i \in 1..Len(ps) |-> [path |-> ps[i], k |-> DeclAt(cst, ps[i]).k, name |-> DeclLabel(DeclAt(cst, ps[i])),
+                          nspath |-> NsPathOf(cst, ps[i]),
+                          templated |-> (DeclAt(cst, ps[i]).k \in {"class", "function"} /\ DeclAt(cst, ps[i]).tmpl # <<>>),
+                          toks |-> RenderItems(RemoveAt(cst, ps[i]))]]
+
 \* ---- laws on the oracle (checked by TLC in InstLaws): the specified result is invariant under the variants
 LawSingle(c, nspath, j) ==
   LET all == IClassAll(AbsClass(c), nspath) IN
